@@ -563,6 +563,10 @@ def crouter_jobs(tier, seed):
     for vi, (variant, n) in enumerate((('mon', 6),) if q else (('mon', 300), ('mon-ndebug', 100))):
         for frm, cnt in split(n, 2 if q else 8):
             jobs.append(Job('h_crouter', variant, pseed(seed, 'C11', 60 + vi), frm, cnt, ['mode=crowd'], label=variant + '/crowd'))
+    # two routers, an observer of the first forwards into the second while the second is written to
+    for vi, (variant, n) in enumerate((('mon', 60),) if q else (('mon', 4000), ('asan', 800))):
+        for frm, cnt in split(n, 4 if q else 8):
+            jobs.append(Job('h_crouter', variant, pseed(seed, 'C11', 70 + vi), frm, cnt, ['mode=forward'], label=variant + '/forward'))
     return jobs
 
 
@@ -585,7 +589,7 @@ SPECS['C11'] = dict(
         'distinct = fingerprints of the order of operation returns',
         samples, observed=pick(agg, 'histories', 'ops', 'notifies', 'notifiesWithCallbacks', 'callbacks', 'subscribes', 'unsubscribes', 'shrinks', 'existsCalls', 'depthCalls', 'writesOverlappingNotify',
                                'snapshotsJudged', 'snapshotsWithConcurrentWrite', 'missedObserversJudged', 'maxThreads', 'delaysInjected', 'lockParks',
-                               'linHistories', 'linOperations', 'linSearchNodes', 'linInconclusive', 'linHistoriesWithOverlap', 'fastChurnCases', 'fastChurnOperations', 'deliveriesEndedByException', 'staleHandleUnsubscribesRejected', 'crowdCases', 'maxSimultaneousDeliveries')),
+                               'linHistories', 'linOperations', 'linSearchNodes', 'linInconclusive', 'linHistoriesWithOverlap', 'fastChurnCases', 'fastChurnOperations', 'deliveriesEndedByException', 'staleHandleUnsubscribesRejected', 'crowdCases', 'maxSimultaneousDeliveries', 'forwardingCases', 'forwardedDeliveries', 'writesJudgedAgainstForwardedDeliveries')),
     assumptions=['mute/unmute and in-callback invalidation are excluded: the quantifier does not list them and they bypass the lock by design', 'callbacks do not call back into the router',
                  'large histories: every rule is a necessary condition of linearizability (such a check can miss non-linearizable histories that satisfy all four rules); small histories: complete search, the sequential SubjectRouter is the specification'],
     manifest=dict(engine='h_crouter', text='Offline checker over stamped call/return/callback events of real multi-threaded histories: four necessary conditions of linearizability decided exactly per notify '
